@@ -63,7 +63,8 @@ MANIFEST = {
             'state every directive target is compared with what an '
             'independent resolver of the documented URL rules expects '
             '(content, link identity, move semantics); task states and '
-            'forwarding are compared with the expected outcome per task.',
+            'forwarding are compared with the expected outcome per task.'
+            "  Second session: contract on the real complete_url: the caller's context (strings or ru.Url objects, as Pilot.stage_in uses) is unchanged by a call and the same question gets the same answer twice.",
     'note': 'only the local staging backend exists offline (no SAGA); the '
             'driver replaces the proxy bridge and the executor; sampled, not '
             'enumerated.'}
